@@ -71,6 +71,15 @@ theorem C05_rank (va : List Rat) (i : Nat) (hi : i < va.length) :
         (((va.filter fun y => decide (y = va.getD i 0)).length : Rat) + 1) / 2) / (va.length : Rat) := by
   rw [ampFraction_get va i hi, rankAvg_def]
 
+/-- … also when some amplitudes are undefined (NaN): a defined amplitude is ranked among the DEFINED ones, the divisor is still the number
+of cycles of the table, an undefined amplitude stays undefined; without undefined entries this is `ampFraction`. -/
+theorem C05_rank_undefined (va : List (Option Rat)) :
+    ampFractionN va = va.map (fun x => x.map fun v => rankAvg (va.filterMap id) v / (va.length : Rat)) ∧
+    (∀ xs : List Rat, ampFractionN (xs.map some) = (ampFraction xs).map some) := by
+  refine ⟨rfl, ?_⟩
+  intro xs
+  simp [ampFractionN, ampFraction, List.filterMap_map, Function.comp_def]
+
 theorem C05_rank_range (xs : List Rat) (x : Rat) (hx : x ∈ xs) :
     0 < rankAvg xs x / (xs.length : Rat) ∧ rankAvg xs x / (xs.length : Rat) ≤ 1 := ampFraction_range xs x hx
 
@@ -78,6 +87,7 @@ theorem C05_rank_order (xs : List Rat) (x y : Rat) (hx : x ∈ xs) (hy : y ∈ x
     rankAvg xs x < rankAvg xs y := rankAvg_strictMono xs x y hx hy h
 
 /-! non-vacuity -/
+example : ampFractionN [some 1, none, some 3, some 2] = [some (1/4), none, some (3/4), some (1/2)] := by decide +kernel
 example : ampConsistency true .both [1, 2, 4, 1] [2, 2, 1, 3] = .ok [.nan, .fin (1/2), .fin (1/4), .nan] := by decide +kernel
 example : ampConsistency false .both [1, 2, 4, 1] [2, 2, 1, 3] = .ok [.nan, .fin (1/2), .fin (1/4), .nan] := by decide +kernel
 example : ampFraction [3, 1, 3, 2] = [7/8, 1/4, 7/8, 1/2] := by decide +kernel
